@@ -29,7 +29,7 @@ Lemma validate_go_tree ns : forall t p, denotes ns p t -> ordered t ->
     (forall j, has_id t j -> j <> nid t -> nth_error v j = Some false) ->
     exists v', validate_go (size t + fuel) ns v (nid t :: stk) = validate_go fuel ns v' stk /\ marks v v' t.
 Proof.
-  induction t as [i d k|i d k a IH|i d k a IH|i d k l IHl r IHr|i k a IH]; intros p D O fuel v stk Hroot Hfalse;
+  induction t as [i d k|i d k a IH|i d k a IH|i d k l IHl r IHr|b i k a IH]; intros p D O fuel v stk Hroot Hfalse;
     simpl in D; destruct D as (n & Hn & A); cbn [nid size] in *.
   - destruct A as (A1 & A2 & A3 & A4 & A5 & A6 & A7).
     exists v. split.
